@@ -8,4 +8,34 @@ CHECKS = {
   "note": "Bounded: <=2 sequences x n<=4 (thorough) / n<=3 (quick) fragments in the replayed graph; tokens stand for payloads (two payload maps). Trusted: TLC, harness edge replayer, guarded read-only hook verif_snapshot.",
  },
 }
+CHECKS.update({
+ "C01": {
+  "level": "exploration",
+  "technique": "TLA+ reference model of the External Term Format (Etf.tla) evaluated by TLC: universe + canonical encoder replayed into the Rust codec, and the library's bytes parsed back by the TLA+ parser",
+  "text": "Every boundary of the quantifier is a leaf of the TLC-enumerated universe (containers to depth 2, plus seeded random deep terms from the harness); the library's encoding of each value is read by an independent implementation (the TLA+ recursive-descent parser) and must denote the same value, the library's decoder must return a term denoting it, re-encoding must reproduce the bytes, and unencodable sizes must be reported as errors. Bounded universe + differential reference model, hence exploration.",
+  "design_ref": "DESIGN.md §5 C01, §2.2 B1/B1'",
+  "note": "Trusted: transcription of the format into Etf.tla (self-checked: parser inverts encoder and every alternative on the universe), harness build/denote projection, TLC. Depth > 2 only through random terms.",
+ },
+ "C03": {
+  "level": "exploration",
+  "technique": "TLA+ reference model (Etf.tla AltsDeep/CompressedAlts) enumerates every admissible encoding per node with TLC; vectors replayed into the Rust decoder and compared with the spec's value",
+  "text": "For each value of the universe TLC emits the canonical encoding and every alternative tag choice at the root or at one child (legacy, text-float, string, big-integer widths incl. zero padding, LOCAL_EXT wrapping, COMPRESSED); the library must decode each to exactly the value and reject trailing bytes.",
+  "design_ref": "DESIGN.md §5 C03",
+  "note": "One alternative per encoding (root or one child), FLOAT_EXT texts and zlib streams from python tables. Open finding C03-mapmerge is matched by input class (numerically-equal distinct keys) and deviation (entries merged, nothing else changed).",
+ },
+ "C10": {
+  "level": "exploration",
+  "technique": "TLA+ model of identifiers with node-local form (Etf.tla, EtfUniverse!IdUniverse) enumerated by TLC; bytes replayed through decode, conversion scripts and encode in the Rust code",
+  "text": "All identifier kinds x plain/3 node-local hashes x 13-14 nesting contexts x all clone/borrow/move scripts up to length 2 (quick) / 4 (thorough): re-encoding must give back the spec's bytes; plain and node-local twins must agree under ==, hash, cmp and set lookup in both term types.",
+  "design_ref": "DESIGN.md §5 C10",
+  "note": "Bounded universe of identifiers and contexts; LOCAL_EXT layout as the code models it (8 opaque bytes + term).",
+ },
+ "C13": {
+  "level": "exploration",
+  "technique": "TLA+ reference model supplies the corpus (valid modern/legacy encodings, classified by the spec) plus truncations and seeded mutations; owned and zero-copy decoders compared differentially",
+  "text": "On every corpus input: zero-copy Ok implies owned Ok with structurally identical term (Debug rendering, denotation, re-encoding); spec-classified modern-tag valid encodings accepted by the owned decoder must be accepted by the zero-copy decoder; reported offsets lie within the input; no panic.",
+  "design_ref": "DESIGN.md §5 C13",
+  "note": "Differential oracle; corpus bounded by the universe, all truncation offsets of encodings <= 400 bytes and 8 (quick) / 60 (thorough) mutations per encoding.",
+ },
+})
 NOT_APPLICABLE = {}
